@@ -261,7 +261,9 @@ def _match(r, p):
                 else:
                     r.fail("C11.match", kk, "violation.has_code_tag swallows %s: an unrelated error would silently switch the tag filter off or on" % ht, vh.loc(h))
     loops = [n for n in walk_function(vh.node) if isinstance(n, ast.For)]
-    if len(loops) == 1 and norm(loops[0].iter) in ("self.oTokens.get_tokens()", "self.get_tokens()"):
+    # the same scan written as any(<element test> for tok in <all tokens>)
+    anys = [n for n in walk_function(vh.node) if isinstance(n, ast.Call) and norm(n.func) == "any" and len(n.args) == 1 and isinstance(n.args[0], (ast.GeneratorExp, ast.ListComp)) and len(n.args[0].generators) == 1 and not n.args[0].generators[0].ifs]
+    if (len(loops) == 1 and not anys and norm(loops[0].iter) in ("self.oTokens.get_tokens()", "self.get_tokens()")) or (not loops and len(anys) == 1 and norm(anys[0].args[0].generators[0].iter) in ("self.oTokens.get_tokens()", "self.get_tokens()")):
         r.ok("C11.match", vh.key + ":all-tokens", "any token of the violation's region carrying the tag suppresses it")
     else:
         r.fail("C11.match", vh.key + ":all-tokens", "violation.has_code_tag no longer inspects every token of the region", vh.loc())
